@@ -38,6 +38,23 @@ struct Inner {
     switches: u64,
     trace: u64,
     overlap: BTreeSet<(u8, u8)>,
+    /// aligned starts (see `SchedOpts`): threads parked at an operation boundary until a partner arrives
+    waiting: Vec<bool>,
+    opts: SchedOpts,
+    aligned_pairs: u64,
+}
+
+/// Optional scheduling policy "aligned starts": a thread that reaches an operation boundary waits
+/// there until another thread reaches one too (what a start barrier does in a stress test), and
+/// both then run the first `dense_yields` yield points of their operations under a much higher
+/// pre-emption probability (2^-dense_exp per yield point). Shared state is typically claimed,
+/// looked up or published in the first steps of an operation; this puts two such prologues side by
+/// side and interleaves them finely, instead of waiting for uniformly spread pre-emptions to do so.
+#[derive(Clone, Copy, Debug, Default, PartialEq)]
+pub struct SchedOpts {
+    pub align: bool,
+    pub dense_yields: u32,
+    pub dense_exp: u32,
 }
 
 #[derive(Clone, Debug, Default)]
@@ -51,6 +68,8 @@ pub struct SchedStats {
     /// critical section): the schedule was infeasible, the threads were released
     /// to run freely and the run is inconclusive (its results must be discarded)
     pub free_running: bool,
+    /// operation starts that were aligned with another thread's operation start
+    pub aligned_pairs: u64,
 }
 
 pub struct Handle {
@@ -59,10 +78,12 @@ pub struct Handle {
     gap: Cell<u64>,
     local_steps: Cell<u64>,
     my_switches: Cell<u64>,
+    /// yield points left in the dense prologue of the current operation
+    dense_left: Cell<u64>,
 }
 
 impl Baton {
-    pub fn new(n: usize, seed: u64, switch_exp: Option<u32>, boundary_switch: u32) -> Arc<Baton> {
+    pub fn new(n: usize, seed: u64, switch_exp: Option<u32>, boundary_switch: u32, opts: SchedOpts) -> Arc<Baton> {
         Arc::new(Baton {
             inner: Mutex::new(Inner {
                 current: None,
@@ -74,6 +95,9 @@ impl Baton {
                 switches: 0,
                 trace: 0,
                 overlap: BTreeSet::new(),
+                waiting: vec![false; n],
+                opts,
+                aligned_pairs: 0,
             }),
             cv: Condvar::new(),
             phases: (0..n).map(|_| AtomicU8::new(0)).collect(),
@@ -84,7 +108,12 @@ impl Baton {
     }
 
     fn draw_gap(inner: &mut Inner) -> u64 {
-        match inner.switch_exp {
+        let e = inner.switch_exp;
+        Self::draw_gap_exp(inner, e)
+    }
+
+    fn draw_gap_exp(inner: &mut Inner, exp: Option<u32>) -> u64 {
+        match exp {
             None => u64::MAX,
             Some(0) => 1,
             Some(k) => {
@@ -109,6 +138,7 @@ impl Baton {
             trace_hash: g.trace,
             overlap_states: g.overlap.iter().cloned().collect(),
             free_running: self.free.load(Ordering::SeqCst),
+            aligned_pairs: g.aligned_pairs,
         }
     }
 }
@@ -145,7 +175,20 @@ impl Handle {
         g
     }
 
+    /// another runnable thread; threads parked at an aligned start are not runnable unless `any`
+    fn pick_other_from(g: &mut Inner, me: usize, any: bool) -> Option<usize> {
+        let others: Vec<usize> = (0..g.alive.len()).filter(|&i| g.alive[i] && i != me && (any || !g.waiting[i])).collect();
+        if others.is_empty() {
+            None
+        } else {
+            Some(others[g.rng.usize_below(others.len())])
+        }
+    }
+
     fn pick_other(g: &mut Inner, me: usize) -> Option<usize> {
+        if g.opts.align {
+            return Self::pick_other_from(g, me, false);
+        }
         let others: Vec<usize> = (0..g.alive.len()).filter(|&i| g.alive[i] && i != me).collect();
         if others.is_empty() {
             None
@@ -164,6 +207,10 @@ impl Handle {
     #[inline]
     pub fn yield_point_n(&self, n: u64) {
         self.local_steps.set(self.local_steps.get() + n);
+        let dl = self.dense_left.get();
+        if dl > 0 {
+            self.dense_left.set(dl.saturating_sub(n));
+        }
         let gap = self.gap.get();
         if gap > n {
             self.gap.set(gap - n);
@@ -179,7 +226,22 @@ impl Handle {
         if let Some(to) = Self::pick_other(&mut g, self.tid) {
             g = self.switch_to(g, to);
         }
-        self.gap.set(Baton::draw_gap(&mut g));
+        self.redraw_gap(&mut g);
+    }
+
+    fn redraw_gap(&self, g: &mut Inner) {
+        if self.dense_left.get() > 0 {
+            let e = Some(g.opts.dense_exp);
+            self.gap.set(Baton::draw_gap_exp(g, e));
+        } else {
+            self.gap.set(Baton::draw_gap(g));
+        }
+    }
+
+    /// inside the dense prologue of an aligned operation start?
+    #[inline]
+    pub fn dense_active(&self) -> bool {
+        self.dense_left.get() > 0
     }
 
     /// Operation-boundary yield point.
@@ -190,6 +252,29 @@ impl Handle {
         let b = self.baton.clone();
         let mut g = b.inner.lock().unwrap();
         g.steps += self.local_steps.replace(0) + 1;
+        if g.opts.align {
+            let me = self.tid;
+            let parked: Vec<usize> = (0..g.alive.len()).filter(|&i| i != me && g.alive[i] && g.waiting[i]).collect();
+            if !parked.is_empty() {
+                // a partner is waiting at its own operation start: release it, and toss who goes first
+                let w = parked[g.rng.usize_below(parked.len())];
+                g.waiting[w] = false;
+                g.aligned_pairs += 1;
+                self.dense_left.set(g.opts.dense_yields as u64);
+                if g.rng.chance(1, 2) {
+                    g = self.switch_to(g, w);
+                }
+                self.redraw_gap(&mut g);
+            } else if let Some(to) = Self::pick_other_from(&mut g, me, false) {
+                // wait here for a partner; resumed when one arrives (or when nobody else can run)
+                g.waiting[me] = true;
+                g = self.switch_to(g, to);
+                g.waiting[me] = false;
+                self.dense_left.set(g.opts.dense_yields as u64);
+                self.redraw_gap(&mut g);
+            }
+            return;
+        }
         let p = g.boundary_switch as u64;
         if p > 0 && g.rng.below(256) < p {
             if let Some(to) = Self::pick_other(&mut g, self.tid) {
@@ -213,7 +298,10 @@ impl Handle {
         let mut g = b.inner.lock().unwrap();
         g.steps += self.local_steps.replace(0);
         g.alive[self.tid] = false;
-        let next = Self::pick_other(&mut g, self.tid);
+        let next = match Self::pick_other(&mut g, self.tid) {
+            Some(t) => Some(t),
+            None => Self::pick_other_from(&mut g, self.tid, true),
+        };
         if let Some(to) = next {
             g.trace = hash_u64(hash_u64(hash_u64(g.trace, g.steps), 0xF1), to as u64);
         }
@@ -230,8 +318,18 @@ pub fn run_threads<T: Send + 'static>(
     boundary_switch: u32,
     bodies: Vec<Box<dyn FnOnce(Rc<Handle>) -> T + Send>>,
 ) -> (Vec<Result<T, Unwind>>, SchedStats) {
+    run_threads_opts(seed, switch_exp, boundary_switch, SchedOpts::default(), bodies)
+}
+
+pub fn run_threads_opts<T: Send + 'static>(
+    seed: u64,
+    switch_exp: Option<u32>,
+    boundary_switch: u32,
+    opts: SchedOpts,
+    bodies: Vec<Box<dyn FnOnce(Rc<Handle>) -> T + Send>>,
+) -> (Vec<Result<T, Unwind>>, SchedStats) {
     let n = bodies.len();
-    let baton = Baton::new(n, seed, switch_exp, boundary_switch);
+    let baton = Baton::new(n, seed, switch_exp, boundary_switch, opts);
     let mut joins = Vec::new();
     for (tid, body) in bodies.into_iter().enumerate() {
         let b = baton.clone();
@@ -244,6 +342,7 @@ pub fn run_threads<T: Send + 'static>(
                     gap: Cell::new(u64::MAX),
                     local_steps: Cell::new(0),
                     my_switches: Cell::new(0),
+                    dense_left: Cell::new(0),
                 });
                 h.acquire();
                 let h2 = h.clone();
